@@ -67,15 +67,26 @@ def run_invocation(sc, backend, seed, fault=None, schedule=None):
             if operation_update is not None:
                 object.__setattr__(operation_update, "_verif_sync", bool(is_sync))
                 res["events"].append(["upd", operation_update.name, operation_update.action.value, operation_update.operation_type.value, sim.clock])
-            return orig_cc(self, operation_update, is_sync)
+                return orig_cc(self, operation_update, is_sync)
+            # the empty (refresh) checkpoint of the timer thread's resubmitter
+            try:
+                return orig_cc(self, operation_update, is_sync)
+            except BaseException:  # noqa: BLE001
+                res.setdefault("pevents", []).append(["refresh.fail", int(round((sim.clock - res.get("_t0", sim.clock)) * 1e6))])
+                raise
 
         ExecutionState.create_checkpoint = cc
+        import aws_durable_execution_sdk_python.operation.child as childmod
+        saved_limit = childmod.CHECKPOINT_SIZE_LIMIT
+        if sc.get("ckpt_limit"):
+            childmod.CHECKPOINT_SIZE_LIMIT = sc["ckpt_limit"]   # small limit: batch results are stored as summaries (ReplayChildren)
         gates = {}
         # ---- instrumentation for the Par model (trace inclusion), all from outside the SDK
         import aws_durable_execution_sdk_python.concurrency.executor as exmod
         from aws_durable_execution_sdk_python.concurrency.models import ExecutableWithState
         pe = res.setdefault("pevents", [])
         t0 = sim.clock
+        res["_t0"] = t0
 
         def us(t):
             return int(round((t - t0) * 1e6))
@@ -148,12 +159,22 @@ def run_invocation(sc, backend, seed, fault=None, schedule=None):
                 cb = getattr(sim.tls, "cb", None)
                 if cb is not None and cb[1][0] in ("orphan", "fatal"):
                     flush_cb()
-                return orig_handle(self, exe_state, future, scheduler)
+                try:
+                    return orig_handle(self, exe_state, future, scheduler)
+                finally:
+                    pe.append(["finish.end", us(sim.clock), exe_state.index])
             exmod.ConcurrentExecutor._handle_task_complete = handle_task_complete
 
         def reset_to_pending(self):
             pe.append(["reset", us(sim.clock), self.index])
             return orig_reset(self)
+
+        orig_ses = exmod.ConcurrentExecutor.should_execution_suspend
+
+        def should_execution_suspend(self):
+            pe.append(["decide", us(sim.clock)])      # the instant at which a done-callback reads the branch statuses
+            return orig_ses(self)
+        exmod.ConcurrentExecutor.should_execution_suspend = should_execution_suspend
 
         class HeapqProxy:
             heappush = staticmethod(orig_heapq.heappush)
@@ -173,6 +194,7 @@ def run_invocation(sc, backend, seed, fault=None, schedule=None):
 
         def run_actions(ctx, actions, tag):
             out = []
+            last_cb = None
             for j, a in enumerate(actions):
                 k = a["a"]
                 name = f"{tag}/{j}"
@@ -182,6 +204,7 @@ def run_invocation(sc, backend, seed, fault=None, schedule=None):
                         res["max_bodies"] = max(res["max_bodies"], res["bodies"])
                         recorded = sorted(o.status for o in backend.ops.values() if o.name == name and o.status in TERMINAL)
                         res["events"].append(["enter", name, sim.clock, recorded])
+                        res.setdefault("running", set()).add(name)
                         try:
                             for _ in range(a.get("yield", 1)):
                                 sim.point("body")
@@ -192,6 +215,7 @@ def run_invocation(sc, backend, seed, fault=None, schedule=None):
                             return VALUE_POOL[a["out"]["ok"]]
                         finally:
                             res["bodies"] -= 1
+                            res["running"].discard(name)
                     v = ctx.step(fn, name=name, config=StepConfig(retry_strategy=lambda e, n: RetryDecision.no_retry()))
                     out.append(token_of(v))
                 elif k == "wait":
@@ -200,6 +224,12 @@ def run_invocation(sc, backend, seed, fault=None, schedule=None):
                 elif k == "cb":
                     cb = ctx.create_callback(name=name)
                     out.append(str(cb.result()))
+                elif k == "cbnew":
+                    last_cb = ctx.create_callback(name=name)
+                elif k == "cbres":
+                    out.append(str(last_cb.result()))
+                elif k == "sleep":
+                    sim.block_until(lambda: False, a["secs"])      # user code between two operations that takes (virtual) time
                 elif k == "raise":
                     raise type(a["cls"], (Exception,), {})(a.get("msg", "raised"))
                 elif k == "block":
@@ -245,6 +275,7 @@ def run_invocation(sc, backend, seed, fault=None, schedule=None):
             def main():
                 try:
                     res["out"] = h(inp, None)
+                    res["running_at_return"] = sorted(res.get("running", ()))
                 except SimAbort:
                     raise
                 except BaseException as e:  # noqa: BLE001
@@ -254,9 +285,11 @@ def run_invocation(sc, backend, seed, fault=None, schedule=None):
             sim.run(main)
         finally:
             ExecutionState.create_checkpoint = orig_cc
+            childmod.CHECKPOINT_SIZE_LIMIT = saved_limit
             backend.checkpoint = orig_ck
             exmod.ConcurrentExecutor.execute = orig_execute
             exmod.ConcurrentExecutor._on_task_complete = orig_cb
+            exmod.ConcurrentExecutor.should_execution_suspend = orig_ses
             ExecutableWithState.reset_to_pending = orig_reset
             exmod.heapq = orig_heapq
             for m, f in orig_status.items():
@@ -284,10 +317,15 @@ def run_execution(sc, seed, max_inv=12, fault=None):
     backend.timers_in_invocation = True
     invs = []
     for k in range(max_inv):
+        backend.fired_in_invocation = set()
         res = run_invocation(sc, backend, rng.randrange(1 << 30), fault=fault if k == 0 else None)
         inv = {"status": status_of(res), "batches": res.get("batches", {}), "events": res["events"], "max_bodies": res["max_bodies"],
                "hung": res["hung"], "limit": res["limit"], "decisions": res["decisions"], "out": res.get("out"),
+               "running_at_return": res.get("running_at_return", []),
+               # B3': a timer that fired while the invocation was running re-triggers the execution after PENDING
+               "rearmed": sorted(backend.ops[i].name or "?" for i in backend.fired_in_invocation),
                "log": [(t, [(u["name"], u["action"], u["type"]) for u in us], o) for t, us, o in backend.calls],
+               "ids": [(u["name"], u["id"], u["parent"]) for t, us, o in backend.calls for u in us],
                "enabled_after": [(kind, backend.ops[i].name) for kind, i in backend.enabled_events()],
                "rejections": list(backend.rejections), "fault_fired": res.get("fault_fired", False), "pevents": res.get("pevents", [])}
         backend.calls = []
@@ -295,9 +333,11 @@ def run_execution(sc, seed, max_inv=12, fault=None):
         if inv["status"] != "PENDING":
             break
         en = backend.enabled_events()
-        if not en:
+        if not en and not inv["rearmed"]:
             inv["stuck"] = True
             break
+        if not en:
+            continue
         rng.shuffle(en)
         for kind, i in en[: rng.randrange(1, len(en) + 1)]:
             backend.fire(kind, i, {"k": "succeeded", "v": "R:cb"} if kind in ("callbackDone", "invokeDone") else None)
@@ -327,6 +367,16 @@ def oracles(ctx, prop, ex, component):
     cfg = sc.get("completion") or {}
     first_batches = {}
     entered = {}
+    # C08: one id per program position (the scenario names every operation by its position), over all invocations
+    id_of, name_of = {}, {}
+    for k, inv in enumerate(ex["invs"]):
+        for name, oid, parent in inv.get("ids", []):
+            if name is None:
+                continue
+            if id_of.setdefault(name, oid) != oid:
+                V("C08.one_position_two_ids", {"inv": k, "position": name, "ids": [id_of[name], oid]})
+            if name_of.setdefault(oid, name) != name:
+                V("C08.one_id_two_positions", {"inv": k, "id": oid, "positions": [name_of[oid], name]})
     for k, inv in enumerate(ex["invs"]):
         has_block = any(a["a"] == "block" for b in sc["blocks"] for br in b.get("branches", []) for a in br)
         if (inv["hung"] or inv["limit"]) and has_block and not inv["batches"]:
@@ -344,6 +394,7 @@ def oracles(ctx, prop, ex, component):
                 if entered[ev[1]] > 1:
                     # no-retry steps, no crashes in these scenarios: a second entry is a re-execution
                     V("C01.step_user_function_ran_twice", {"inv": k, "step": ev[1], "runs": entered[ev[1]]})
+                    V("C16.step_re_executed_while_rebuilding", {"inv": k, "step": ev[1], "runs": entered[ev[1]]})
         if inv["fault_fired"] and inv["status"] in ("SUCCEEDED", "PENDING"):
             V("C06.success_or_pending_after_checkpoint_failure", {"inv": k, "status": inv["status"]})
         for rej in inv["rejections"]:
@@ -372,13 +423,14 @@ def oracles(ctx, prop, ex, component):
                 for it in items:
                     acts = blk["branches"][it[0]]
                     if it[1] == "SUCCEEDED":
-                        want = "|".join(("None" if a["a"] == "wait" else a["out"]["ok"] if a["a"] == "step" else "R:cb") for a in acts if a["a"] in ("step", "wait", "cb"))
+                        want = "|".join(("None" if a["a"] == "wait" else a["out"]["ok"] if a["a"] == "step" else "R:cb") for a in acts if a["a"] in ("step", "wait", "cb", "cbres"))
                         if it[2] != want:
                             V("C09.item_result_not_branch_result", {"inv": k, "block": n, "index": it[0], "got": it[2], "want": want})
                             V("C01.item_result_not_recorded_result", {"inv": k, "block": n, "index": it[0], "got": it[2], "want": want})
                 if n in first_batches and first_batches[n] != rep:
                     V("C09.replayed_batch_result_differs", {"block": n, "first": first_batches[n], "later": rep, "inv": k})
                     V("C02.replayed_batch_result_differs", {"block": n, "first": first_batches[n], "later": rep, "inv": k})
+                    V("C16.replayed_batch_result_differs", {"block": n, "first": first_batches[n], "later": rep, "inv": k})
                 first_batches.setdefault(n, rep)
             mc = blk.get("max_concurrency")
             if mc and inv["max_bodies"] > mc and sum(1 for b in sc["blocks"] if b["kind"] in ("map", "parallel")) == 1:
@@ -420,13 +472,24 @@ def oracles(ctx, prop, ex, component):
                 if blkno in closed_ev:
                     V("C10.orphan_update_handed_over_after_completion", {"inv": k, "update": ev[1:4], "block": blkno})
         if inv["status"] == "PENDING":
-            if not inv["enabled_after"]:
+            if not inv["enabled_after"] and not inv.get("rearmed"):
                 V("C07.pending_with_nothing_armed", {"inv": k})
             closed_blocks = {int(ev[1][2:]) - 1 for ev in inv["events"] if ev[0] == "upd" and ev[3] == "CONTEXT" and ev[2] in ("SUCCEED", "FAIL")
                              and ev[1] and ev[1].startswith("p:")}
             running = [ev for ev in inv["events"] if ev[0] == "blocked" and int(ev[1][1:].split(".")[0]) not in closed_blocks]
             if running:
                 V("C07.pending_while_user_function_running", {"inv": k, "blocked": running})
+            live = [nm for nm in inv.get("running_at_return", []) if nm.startswith("b") and int(nm[1:].split(".")[0]) not in closed_blocks]
+            finished = {ev[1] for ev in inv["events"] if ev[0] == "upd" and ev[3] == "STEP" and ev[2] in ("SUCCEED", "FAIL", "RETRY")}
+            abandoned = [ev[1] for ev in inv["events"] if ev[0] == "enter" and ev[1] not in finished and ev[1].startswith("b")
+                         and int(ev[1][1:].split(".")[0]) not in closed_blocks]
+            if abandoned and not has_block:
+                # a step function of a still open map/parallel was entered in this invocation, its outcome never handed over,
+                # and the invocation reported PENDING: in-flight work abandoned
+                V("C07.pending_abandons_entered_step", {"inv": k, "steps": abandoned})
+            if live:
+                # a step function of a branch of a still open map/parallel is executing while PENDING is reported
+                V("C07.pending_while_step_function_executing", {"inv": k, "steps": live})
     if ex["invs"] and ex["invs"][-1]["status"] == "PENDING" and not ex["invs"][-1].get("stuck") and len(ex["invs"]) >= 12:
         V("C07.execution_does_not_terminate", {"invocations": len(ex["invs"])})
 
@@ -458,7 +521,52 @@ def gen_branch(rng, allow_block=True):
     return acts
 
 
+def gen_timer_race(rng):
+    """A branch whose timer fires at the very (virtual) instant at which the last other branch parks or finishes."""
+    s_ = rng.choice([1, 2])
+    a = [{"a": "wait", "secs": s_}, {"a": "step", "out": {"ok": "i5"}, "yield": rng.choice([1, 3])}]
+    if rng.random() < 0.6:
+        # parks without any backend round trip exactly when the other branch's timer fires
+        b = [{"a": "cbnew"}, {"a": "sleep", "secs": s_}, {"a": "cbres"}]
+    else:
+        b = [{"a": "step", "out": {"ok": "s"}, "yield": 1, "sleep": s_}, rng.choice([{"a": "cb"}, {"a": "wait", "secs": 3}, {"a": "raise", "cls": "Boom", "msg": "raised"}])]
+    branches = [a, b]
+    if rng.random() < 0.4:
+        branches.append(rng.choice([[{"a": "cb"}], [{"a": "step", "out": {"ok": "t"}, "yield": 2, "sleep": s_}]]))
+    rng.shuffle(branches)
+    comp = rng.choice([{}, {"count": 1}, {"count": 2}, {"pct": 50}])
+    return {"blocks": [{"kind": rng.choice(["map", "parallel"]), "branches": branches, "max_concurrency": None}], "completion": comp}
+
+
+def gen_late_begin(rng):
+    """More branches than workers and an early decision: a queued branch may still be started by a freed worker
+    between the decision and the main thread's cancellation, i.e. while the batch's completion record is on its way."""
+    nb = rng.choice([3, 3, 4])
+    branches = []
+    for i in range(nb):
+        k = rng.choice([1, 2, 2])
+        branches.append([{"a": "step", "out": {"ok": rng.choice(["i5", "s", "t"])} if (i or rng.random() < 0.6) else {"err": {"cls": "Boom", "msg": "bad"}},
+                          "yield": rng.choice([1, 1, 3])} for _ in range(k)])
+    comp = rng.choice([{"min": 1}, {"min": 1}, {"min": 2}, {}])
+    return {"blocks": [{"kind": rng.choice(["map", "parallel"]), "branches": branches, "max_concurrency": rng.choice([1, 2, 2])},
+                       {"kind": "seq", "actions": [{"a": "step", "out": {"ok": "s"}}]}], "completion": comp}
+
+
 def gen_scenario(rng, zero_p=0.05):
+    x = rng.random()
+    if x < 0.15:
+        return gen_timer_race(rng)
+    if x < 0.30:
+        return gen_late_begin(rng)
+    sc = gen_scenario0(rng, zero_p)
+    if rng.random() < 0.25:
+        sc["ckpt_limit"] = rng.choice([30, 60, 120])
+        if len(sc["blocks"]) == 1:
+            sc["blocks"].append({"kind": "seq", "actions": [{"a": "wait", "secs": 1}]})   # a later suspension: the batch is replayed
+    return sc
+
+
+def gen_scenario0(rng, zero_p=0.05):
     nb = 0 if rng.random() < zero_p else rng.choice([1, 2, 2, 3, 3, 4, 5])
     comp = rng.choice([{}, {}, {"min": 1}, {"min": 2}, {"count": 0}, {"count": 1}, {"pct": 50}, {"min": 1, "count": 1}, {"min": 2, "pct": 34}])
     early = bool(comp.get("min")) and nb > (comp.get("min") or 0)
@@ -485,8 +593,8 @@ def one(ctx, prop, sc, seed, component="executor", fault=None):
     ex = run_execution(sc, seed, fault=fault)
     oracles(ctx, prop, ex, component)
     for inv in ex["invs"]:
-        compare_par(ctx, sc, inv)
-    ctx.case((json.dumps(sc, sort_keys=True), seed) if (nontrivial(ex) or prop in ("C07", "C06", "C10", "C01", "C02")) and len(ex["invs"]) >= 1 else None)
+        compare_par(ctx, sc, inv, seed=seed)
+    ctx.case((json.dumps(sc, sort_keys=True), seed) if (nontrivial(ex) or prop in ("C07", "C06", "C10", "C01", "C02", "C08", "C16")) and len(ex["invs"]) >= 1 else None)
     ctx.count("exec.invocations=%d" % min(len(ex["invs"]), 5))
     ctx.count("exec.status=" + ex["invs"][-1]["status"])
     if len(ctx.samples) < 4:
@@ -498,6 +606,28 @@ def run_prop(ctx, prop, n_quick=150, n_thorough=4000):
     for i in range(ctx.scale(n_quick, n_thorough)):
         sc = gen_scenario(ctx.rng)
         one(ctx, prop, sc, ctx.rng.randrange(1 << 30))
+
+
+def search(ctx, prop, n=400):
+    """Failing-input search without the model: first the scenarios on which the Par model and the executor disagreed,
+    each under many other schedules, then fresh scenarios."""
+    targets = []
+    for d in getattr(ctx, "disagreements", []):
+        c = d.get("case") if isinstance(d, dict) else None
+        if isinstance(c, dict) and isinstance(c.get("scenario"), dict) and "blocks" in c["scenario"] and c["scenario"] not in targets:
+            targets.append(c["scenario"])
+    saved, ctx.driver = ctx.driver, None
+    try:
+        for sc in targets[:8]:
+            for j in range(40):
+                one(ctx, prop, sc, ctx.rng.randrange(1 << 30), component="executor.search.targeted")
+        n0 = len(ctx.violations)
+        for i in range(n):
+            one(ctx, prop, gen_scenario(ctx.rng), ctx.rng.randrange(1 << 30), component="executor.search")
+            if len(ctx.violations) > n0:
+                break
+    finally:
+        ctx.driver = saved
 
 
 def run_c09(ctx):
@@ -522,6 +652,34 @@ def replay(ctx, rec, prop="C09"):
 
 
 # ------------------------------------------------------------------------------------ Par model (trace inclusion)
+def commute_timer(evs):
+    """The done-callback of branch i is atomic with respect to other callbacks (lock) but not with respect to the
+    timer thread: between its status/counter update (logged as `finish`) and the end of its decision (`finish.end`)
+    the timer thread may pop and re-submit another branch j.  The update of branch i and the re-submission of
+    branch j != i commute (neither reads what the other writes), so the run is equivalent to the one in which the
+    timer fired first; the model's `finish` is atomic, so those timer events are moved in front of the `finish`."""
+    evs = list(evs)
+    k = 0
+    while k < len(evs):
+        e = evs[k]
+        if e[0] == "finish":
+            end = next((q for q in range(k + 1, len(evs)) if evs[q][0] == "finish.end" and evs[q][2] == e[2]), None)
+            if end is not None:
+                # only what happened before the callback read the statuses (its `decide` marker) is moved; without a
+                # marker (policy decided from the counters alone, orphan, fatal) nothing is moved
+                dec = next((q for q in range(k + 1, end) if evs[q][0] == "decide"), None)
+                end = dec if dec is not None else k + 1
+            if end is not None and end > k + 1:
+                inside = evs[k + 1:end]
+                moved = [x for x in inside if x[0] in ("timer.pop", "reset") or (x[0] == "submit" and x[2] == "thread")]
+                if moved and all(x[2] != e[2] for x in moved if x[0] in ("timer.pop", "reset")):
+                    rest = [x for x in inside if x not in moved]
+                    evs[k:end] = moved + [e] + rest
+                    k += len(moved)
+        k += 1
+    return evs
+
+
 def derive_par_actions(pevents):
     """Events of ONE executor run (between exec.start and exec.end) -> Par model actions."""
     acts = []
@@ -531,7 +689,7 @@ def derive_par_actions(pevents):
     last_t = start[1]
     n, max_conc = start[2], start[3]
     end = None
-    evs = pevents[pevents.index(start) + 1:]
+    evs = commute_timer(pevents[pevents.index(start) + 1:])
     i = 0
     while i < len(evs):
         e = evs[i]
@@ -547,21 +705,17 @@ def derive_par_actions(pevents):
             acts.append(["cancel", e[2]])
         elif e[0] == "timer.pop":
             # look ahead: reset -> (submit by the timer thread | nothing more by it before a fatal) ; no reset: cannot resume
+            # the refresh checkpoint of this resumption failed iff a `refresh.fail` follows before the timer thread's
+            # next pop (whether the branch is submitted again is the model's business: not once the event is set)
             idx = e[2]
             ok = True
             j = i + 1
-            reset_seen = False
             while j < len(evs):
                 f = evs[j]
-                if f[0] == "reset" and f[2] == idx:
-                    reset_seen = True
-                elif f[0] == "submit" and reset_seen and f[2] == "thread":
-                    ok = True
+                if f[0] == "refresh.fail":
+                    ok = False
                     break
-                elif f[0] in ("timer.pop", "exec.end"):
-                    ok = not reset_seen if f[0] == "exec.end" else ok
-                    if reset_seen and f[0] == "timer.pop":
-                        ok = False
+                if f[0] in ("timer.pop", "exec.end") or (f[0] == "submit" and f[2] == "thread"):
                     break
                 j += 1
             acts.append(["timerFire", idx, bool(ok)])
@@ -573,7 +727,7 @@ def derive_par_actions(pevents):
     return {"n": n, "maxConc": max_conc, "acts": acts, "end": end}
 
 
-def compare_par(ctx, sc, inv, component="executor.par"):
+def compare_par(ctx, sc, inv, component="executor.par", seed=None):
     if not (ctx.driver and ctx.driver.ok):
         return
     blocks = [b for b in sc["blocks"] if b["kind"] in ("map", "parallel")]
@@ -591,7 +745,7 @@ def compare_par(ctx, sc, inv, component="executor.par"):
     if cfg.get("pct") is not None:
         q["pctNum"], q["pctDen"] = cfg["pct"], 1
     a = ctx.driver.ask(q)
-    case = {"scenario": sc, "acts": d["acts"]}
+    case = {"scenario": sc, "acts": d["acts"], "seed": seed}
     if not a.get("enabled"):
         k = a.get("failed_at") or 0
         ctx.disagree(component, case, {"at": k, "acts": d["acts"][max(0, k - 5): k + 1]}, {"statuses": a.get("statuses"), "evt": a.get("evt")},
